@@ -17,7 +17,7 @@ RULE = (
     "generated valid inputs of 1-3 assets (rows not time-sorted in the sheet, crypto fees on acquisitions, optional fiat "
     "columns) x country+language {us/en, generic/en, es/es, ie/en_IE, jp/en, jp/kl} x method via -m / [accounting_methods] "
     "schedule / default x window {none, to, from, from+to}; every In/Out/Intra-Flow, Gain / Loss Detail, Account Balances, "
-    "Average Price, yearly summary, Summary-sheet and Legend cell is read back (values and formula payloads). Non-trivial = "
+    "Average Price, yearly summary, Summary-sheet and Legend cell is read back (values and formula payloads); one case in eight is one of the repository's own example inputs (-n). Non-trivial = "
     "report with >= 1 disposal spanning >= 2 lots; distinct = hash of the case"
 )
 ASSUMPTIONS = [
